@@ -105,7 +105,79 @@ def run(ctx):
             jobs.append((exe, g, "asm-clang"))
     jobs.sort(key=lambda j: 0 if j[1] == ["aead", 4] else 1)
     common.parallel(lambda j: valgrind_run(ctx, j[0], j[1], j[2]), jobs)
+    # ---- monitor 2: instruction / data-address trace equality across secret assignments (lackey)
+    import hashlib
+    tr_cfgs = [("asm", D)] if not t else [("asm", D), ("c64", D), ("c32", D), ("generic", D), ("asm", (2, 1, 2)), ("asm", (4, 4, 4))]
+    tr_groups = [["aead", "0"], ["mac"]] if not t else [["aead", str(f)] for f in range(5)] + [["mac"], ["prng"]]
+    secrets = {"zero": bytes(4096), "ones": b"\xff" * 4096, "dense": hashlib.shake_256(b"c11-%d" % ctx.seed).digest(4096)}
+
+    def trace_job(job):
+        be, tr, g = job
+        name = "%s-k%dd%dm%d" % ((be,) + tr)
+        try:
+            lib = release_lib(be, tr)
+            exe = build.build_prog("c11_trace", ["harness/c11_trace.c"], lib, opt="-O1", cfg_dep=True, link=["-no-pie"])
+        except build.BuildError as e:
+            ctx.fail("build-error:trace-" + name, str(e)[-400:])
+            return
+        digests = {}
+        counts = {}
+        nm = subprocess.run(["nm", exe], stdout=subprocess.PIPE).stdout.decode()
+        mark = {l.split()[2]: ("I  %08x," % int(l.split()[0], 16)).encode() for l in nm.splitlines() if l.split()[-1] in ("c11_marker_begin", "c11_marker_end", "c11_marker_rej", "c11_marker_other")}
+        for sname, sbytes in secrets.items():
+            cmd = ["setarch", "x86_64", "-R", "valgrind", "--tool=lackey", "--trace-mem=yes", "--log-fd=9", exe] + g
+            env = {"PATH": os.environ.get("PATH", "/usr/bin:/bin"), "LC_ALL": "C"}
+            p = subprocess.Popen("exec 9>&1 1>/dev/null; exec " + " ".join(cmd), shell=True, stdin=subprocess.PIPE, stdout=subprocess.PIPE, stderr=subprocess.DEVNULL, env=env)
+            h = hashlib.sha256()
+            n = 0
+            import threading
+            def feed():
+                try:
+                    p.stdin.write(sbytes); p.stdin.close()
+                except Exception:
+                    pass
+            th = threading.Thread(target=feed); th.start()
+            inside = False
+            seg = None; segn = 0; segs = []
+            for line in p.stdout:
+                if not inside:
+                    inside = line.startswith(mark["c11_marker_begin"])      # only the window between the harness markers: process start-up is not under test
+                    continue
+                if line.startswith(mark["c11_marker_end"]):
+                    break
+                if line.startswith(mark["c11_marker_rej"]):
+                    seg = hashlib.sha256(); segn = 0
+                elif line.startswith(mark["c11_marker_other"]):
+                    if seg is not None:
+                        segs.append((seg.hexdigest(), segn)); seg = None
+                elif seg is not None and line[:1] in (b"I", b" "):
+                    seg.update(line); segn += 1
+                if line[:1] in (b"I", b" "):
+                    h.update(line); n += 1
+            for line in p.stdout:
+                pass
+            p.wait(); th.join()
+            if p.returncode != 0 or n < 1000:
+                ctx.fail("%s:trace-run-failed:%s" % (name, "-".join(g)), "lackey run for secret set %s exited %s with %d trace lines" % (sname, p.returncode, n))
+                return
+            digests[sname] = h.hexdigest(); counts[sname] = n
+            # the three rejections of one ciphertext (tag wrong in byte 0 / byte 15 / all bytes) must execute identically
+            for k in range(0, len(segs) - 2, 3):
+                ctx.stat("reject_position_triples")
+                if not (segs[k] == segs[k + 1] == segs[k + 2]):
+                    ctx.fail("%s:trace-depends-on-tag-difference-position:%s" % (name, "-".join(g)),
+                             "rejection traces for a tag wrong in byte 0 / byte 15 / all bytes differ (lines %s) for verification #%d, secret set %s" % ([x[1] for x in segs[k:k + 3]], k // 3, sname))
+                    break
+            ctx.stat("trace_lines", n)
+        ctx.stat("trace_comparisons")
+        ctx.stat("evaluations", 3)
+        if len(set(digests.values())) != 1:
+            ctx.fail("%s:trace-differs:%s" % (name, "-".join(g)), "instruction/data-address traces differ between secret assignments (lines: %s): a branch or an address depends on a secret" % counts,
+                     dict(cmd=["valgrind", "--tool=lackey", "--trace-mem=yes", exe] + g))
+    common.parallel(trace_job, [(be, tr, g) for be, tr in tr_cfgs for g in tr_groups], jobs=8)
+    ctx.sample("lackey trace equality: %d (configuration, group) pairs x 3 secret assignments read from stdin (zero / ones / dense); %d trace lines hashed" % (ctx.stats.get("trace_comparisons", 0), ctx.stats.get("trace_lines", 0)))
     ctx.assumptions += [
+        "monitor 2 (lackey): whole-process instruction and data-address traces of runs that differ only in the secret bytes fed on stdin must be identical (non-PIE link, ASLR disabled with setarch -R, fixed environment)",
         "memcheck's bit-precise definedness propagation is used as a taint tracker: a conditional jump or an address that depends on a secret is reported as use of an uninitialised value; data-dependent instruction timing, caches and speculation are out of scope",
         "artefact: the repository's CMake Release (-O3) static library per back end / share triple, gcc 12 (clang 14 in thorough)",
         "declassified by the harness: ciphertext and tag produced by encryption, accept/reject results; never declassified: keys, plaintext, delivered entropy, PRNG state and output, masking randomness",
